@@ -5266,7 +5266,13 @@ class FlowIRConcrete(object):
         comp_identifiers = self.get_component_identifiers(recompute=True, include_documents=True)
         comp_stages = {}
 
-        for comp_id in comp_identifiers:
+        # VV: the identifiers are a set, visit them in the order the description lists its components so that the
+        #     instance (and what is stored on the disk) does not depend on the hash seed. Loading is order sensitive
+        #     ($import-ed documents are processed in the order they are listed)
+        listed = [(comp.get('stage'), comp.get('name')) for comp in self._flowir[FlowIR.FieldComponents]]
+        listed_order = {c_id: idx for idx, c_id in reversed(list(enumerate(listed)))}
+
+        for comp_id in sorted(comp_identifiers, key=lambda c_id: (listed_order.get(c_id, len(listed_order)), repr(c_id))):
             stage, name = comp_id
             if stage not in comp_stages:
                 comp_stages[stage] = []
